@@ -139,7 +139,7 @@ def to_c(ob, wd, ll, tag):
         redirect[cname(hit[0])] = stub
     models = [os.path.join(MOD, m) for m in ob.get('models', [])]
     cfile = os.path.join(wd, tag + '.c'); meta = os.path.join(wd, tag + '.meta.json')
-    cmd = ['python3', os.path.join(ENG, 'ir2c.py'), ll, ob['entry'], '--meta', meta,
+    cmd = ['python3', os.path.join(ENG, 'ir2c.py'), ll, ','.join([ob['entry']] + list(ob.get('extra_roots', []))), '--meta', meta,
            '--cut', ','.join(cname(c) for c in cuts),
            '--forbid', ','.join(cname(c) for c in resolve_names(ll, ob.get('forbid'))),
            '--redirect', ','.join('%s=%s' % kv for kv in redirect.items()),
@@ -155,9 +155,56 @@ def cbmc_base(ob, cfile):
     cmd = ['cbmc', cfile, '-I', ENG, '--function', ob['entry']]
     real = REAL[ob.get('real')]
     if real: cmd += ['-DVF_NARROW_T=' + real]
-    if ob.get('object_bits'): cmd += ['--object-bits', str(ob['object_bits'])]
+    cmd += ['--object-bits', str(ob.get('object_bits', 11))]
     for d in ob.get('cdefs', []): cmd.append('-D' + d)
     return cmd
+
+def deepen(ob, cfile, wd, timeout, mem):
+    """iterative deepening of loop bounds: start every loop (and recursion) at spec['start'], run cbmc
+    with ONLY the unwinding assertions enabled, double the bound of each loop whose unwinding assertion
+    fails, repeat.  The final bounds are the smallest power-of-two-ish bounds under which no loop is cut,
+    derived from the current code rather than from loop numbers."""
+    spec = ob.get('unwind') or {}
+    start = spec.get('start', 2); cap = spec.get('max', 16)
+    rc, o, t, _ = run(cbmc_base(ob, cfile) + ['--show-loops', '--drop-unused-functions'], timeout=300)
+    loops = re.findall(r'^Loop ([^\s:]+):', o, re.M)
+    if rc != 0 and not loops:
+        raise Inconclusive('cbmc front end rejected the generated C: ' + o[-2000:])
+    meta = json.load(open(cfile[:-2] + '.meta.json'))
+    bounds = {}
+    for l in loops:
+        fn = l.rsplit('.', 1)[0]; b = start
+        for pat, n in spec.items():
+            if pat not in ('default', 'auto', 'start', 'max') and re.search(pat, fn): b = n
+        bounds[l] = b
+    rspec = ob.get('recursion') or {}
+    for fn in meta.get('recursive', []):
+        b = rspec.get('default', start)
+        for pat, n in rspec.items():
+            if pat != 'default' and re.search(pat, fn): b = n
+        bounds[fn] = b
+    rounds = 0; secs = 0
+    while True:
+        rounds += 1
+        uw = ['%s:%d' % (k, v + 1) for k, v in bounds.items()]
+        cmd = cbmc_base(ob, cfile) + ['--unwinding-assertions', '--no-standard-checks', '--no-assertions', '--drop-unused-functions',
+                                     '--no-malloc-may-fail', '--verbosity', '4'] + BACKENDS[(ob.get('backends') or ['minisat'])[0]] + ['--unwindset', ','.join(uw)]
+        rc, o, t, _ = run(cmd, timeout=timeout, mem_gb=mem)
+        secs += t
+        if rc == -999: raise Inconclusive('bound search timed out after %d rounds' % rounds)
+        failed = [n for n, dsc, s in PROP_RE.findall(o) if s == 'FAILURE' and ('unwinding assertion' in dsc or 'recursion' in dsc)]
+        if not failed:
+            if 'VERIFICATION SUCCESSFUL' not in o and 'VERIFICATION FAILED' not in o:
+                raise Inconclusive('bound search: cbmc error: ' + o[-1500:])
+            return uw, {'rounds': rounds, 'seconds': round(secs, 1)}
+        grew = False
+        for n in failed:
+            m = re.match(r'(.*)\.unwind\.(\d+)$', n)
+            key = '%s.%s' % (m.group(1), m.group(2)) if m else re.sub(r'\.recursion$', '', n)
+            if key in bounds and bounds[key] < cap:
+                bounds[key] = min(cap, bounds[key] * 2); grew = True
+        if not grew or rounds > 8:
+            raise Inconclusive('loop bound cap %d reached for %s' % (cap, failed[:4]))
 
 def unwindset(ob, cfile, wd):
     spec = ob.get('unwind') or {}
@@ -173,10 +220,14 @@ def unwindset(ob, cfile, wd):
         for pat, n in spec.items():
             if pat != 'default' and re.search(pat, fn): b = n
         items.append('%s:%d' % (l, b + 1))
-    # recursion: bound every translated function named by the 'recursion' spec
-    for pat, n in (ob.get('recursion') or {}).items():
-        for fn in sorted(set(re.findall(r'^(?:\w[\w \*]*?)\b(f_\w+)\(', open(cfile).read(), re.M))):
-            if re.search(pat, fn): items.append('%s:%d' % (fn, n + 1))
+    # recursion: every function on a call-graph cycle gets a bound (default = the loop default)
+    rspec = ob.get('recursion') or {}
+    meta = json.load(open(cfile[:-2] + '.meta.json'))
+    for fn in meta.get('recursive', []):
+        b = rspec.get('default', default)
+        for pat, n in rspec.items():
+            if pat != 'default' and re.search(pat, fn): b = n
+        items.append('%s:%d' % (fn, b + 1))
     return items
 
 PROP_RE = re.compile(r'^\[([^\]]+)\] (?:line \d+ )?(.*): (SUCCESS|FAILURE|UNKNOWN|ERROR)$', re.M)
@@ -310,7 +361,11 @@ def do_obligation(pid, ob, tier, scratch, fids, known):
         rec['functions_encoded'] = [demangle_short(f) for f in meta['functions']][:200]
         rec['n_functions_encoded'] = len(meta['functions']); rec['ir_instructions'] = meta['ir_instructions']
         rec['externals_modelled'] = meta['modelled']; rec['externals_cut'] = meta['cut']; rec['externals_unmodelled_asserted_unreachable'] = meta['unmodelled']
-        uw = unwindset(ob, cfile, wd); rec['unwindset'] = uw
+        if (ob.get('unwind') or {}).get('auto'):
+            uw, dinfo = deepen(ob, cfile, wd, timeout, mem); rec['bound_search'] = dinfo; rec['queries'] = dinfo['rounds']
+        else:
+            uw = unwindset(ob, cfile, wd)
+        rec['unwindset'] = uw
         extra = list(ob.get('cbmc', [])) + ['--trace']
         # witness twin, run concurrently with the main query
         with cf.ThreadPoolExecutor(2) as ex:
@@ -319,7 +374,7 @@ def do_obligation(pid, ob, tier, scratch, fids, known):
             w = fw.result()
         rec['solver'] = {k: r[k] for k in ('backend', 'seconds', 'status', 'props') if k in r}
         rec['witness'] = w
-        rec['queries'] = 2
+        rec['queries'] = rec.get('queries', 0) + 2
         if r['status'] in ('timeout', 'oom', 'error'):
             rec['verdict'] = 'inconclusive'; rec['why'] = 'solver %s after %.0fs %s' % (r['status'], r['seconds'], r.get('tail', ''))
             return rec
@@ -339,8 +394,7 @@ def do_obligation(pid, ob, tier, scratch, fids, known):
             desc_h = humanise(desc, fids)
             kf = match_known(known, pid, name, desc_h)
             ce = {'property': pname, 'description': desc_h}
-            if 'unwinding assertion' in desc:
-                ce['class'] = 'bound'; unconfirmed.append(ce); rec['counterexamples'].append(ce); continue
+            is_bound = 'unwinding assertion' in desc or '(bound)' in desc
             vals = traces.get(pname)
             if vals is None or tried >= 4 or (confirmed is not None and not kf):
                 ce['class'] = 'not-replayed'; unconfirmed.append(ce); rec['counterexamples'].append(ce); continue
@@ -352,6 +406,12 @@ def do_obligation(pid, ob, tier, scratch, fids, known):
             ce['native_rc'] = rc; ce['native_tail'] = o[-1200:]
             ce['nondet_values'] = len(vals)
             reproduced = reproduced_natively(rc, o)
+            if reproduced and is_bound:
+                # the solver only hit a harness bound, but the same inputs make the native code fail: report what the native run shows
+                m = re.search(r'(runtime error: [^\n]*|ERROR: AddressSanitizer: [^\n]*|VF-NATIVE-FAIL [^\n]*)', o)
+                ce['description'] = desc_h = 'native replay: ' + (m.group(1) if m else 'failure') + ' (solver trace ended at: %s)' % desc_h
+            elif is_bound:
+                ce['class'] = 'bound'
             if ob.get('real') and not reproduced:
                 ce['class'] = 'narrow-format-only'
             if reproduced:
@@ -390,7 +450,7 @@ def witness_run(ob, wd, uw, timeout, mem):
     try:
         ll = clang_ir(ob, wd, witness=True)
         cfile, meta = to_c(ob, wd, ll, 'wit')
-        uw = unwindset(ob, cfile, wd)
+        if not (ob.get('unwind') or {}).get('auto'): uw = unwindset(ob, cfile, wd)
         # only the WITNESS assertion matters: find its property id
         rc, o, t, _ = run(cbmc_base(ob, cfile) + ['--show-properties', '--drop-unused-functions', '--no-standard-checks'], timeout=300)
         ids = re.findall(r'^Property ([^\s:]+):\s*\n(?:[^\n]*\n){0,3}?\s*WITNESS', o, re.M)
